@@ -47,7 +47,7 @@ ASSUMPTIONS = [
     "no CPU tick consumed for 1 s (all channels are internal to the group, so this state is final)",
     "timeout 0.15 s vs sleeper 1.5 s vs per-call watchdog 6 s (10x separation); a timeout argument is only passed to a wait/close that the model expects to time out "
     "(quick) so that machine load cannot create spurious timeouts; thorough also passes a generous 5 s timeout to healthy waits",
-    "close() must return within 5 s",
+    "close() must return within 5 s; 'no worker alive' is sampled immediately after close() returns; scripted workers take 0.1 s to exit (env.close() and SIGTERM)",
     "sub-environments are ScriptEnv(length=99): no automatic reset inside C13 traces, so the k-th reset command is the k-th reset() of the sub-env",
     "with two exception faults in the same command either type is accepted",
     "schedule control: after a successful *_async the driver waits (read-only poll on the parent pipes) until every worker that is not a scripted sleeper has "
@@ -65,6 +65,7 @@ PIPE_ERRORS = {"EOFError", "BrokenPipeError", "ConnectionResetError", "OSError"}
 MISUSE = {"AlreadyPendingCallError", "NoAsyncCallError", "ClosedEnvironmentError"}
 CONCURRENCY = 3          # trace children per pool worker (sleepers and deadlocks cost wall time, not CPU)
 T_OUT, T_SLEEP, T_WATCH, T_CLOSE, T_GENEROUS = 0.15, 1.5, 6.0, 5.0, 5.0
+T_LINGER = 0.1           # every worker needs 0.1 s to go away (env.close() / SIGTERM): a close() that does not join is caught red-handed
 
 
 def bounds(tier):
@@ -399,7 +400,7 @@ def c13_trace(spec, emit):
     N = spec["N"]
     order = list(range(N)) if spec["order"] == "id" else list(range(N))[::-1]
     gate = Gate(ctx, N, [order], patience=T_WATCH + 4)
-    fns = [env_fn(i, n_agents=2, obs_kind="vec", act_kind="disc", length=99, gate=gate, faults=spec["plan"], hang_sleep=T_SLEEP) for i in range(N)]
+    fns = [env_fn(i, n_agents=2, obs_kind="vec", act_kind="disc", length=99, gate=gate, faults=spec["plan"], hang_sleep=T_SLEEP, linger=T_LINGER) for i in range(N)]
     emit({"ev": "begin", "k": -1, "call": "construct", "bound": T_WATCH})
     vec = AsyncPettingZooVecEnv(fns)
     emit({"ev": "end", "k": -1})
@@ -502,10 +503,14 @@ def judge(p, spec, r, rp):
             elif got != "ok":
                 p.viol(f"close/already-closed/raised-{got}", f"close() on a closed env raised {got}", rp)
         elif not ok:
+            g_txt = f"got-{got}"
+            if cls == "misuse":
+                g_txt = "not-raised"           # what came instead (ok / some other exception) may depend on the schedule; it is in the text
             e_txt = sorted(exp)[0] if len(exp) == 1 else ("same-exception-type" if exp <= set(EXC_KINDS) else "|".join(sorted(exp)))
             if cls == "legal" and not degraded_before and exp <= set(EXC_KINDS):
                 e_txt = "same-exception-type"
-            p.viol(f"{name}/state={st_before if not closed_before else 'closed'}/{ctx}/expected-{e_txt}/got-{got}",
+            mid = "" if cls == "misuse" else f"/{ctx}"      # a misuse verdict depends on the automaton state only
+            p.viol(f"{name}/state={st_before if not closed_before else 'closed'}{mid}/expected-{e_txt}/{g_txt}",
                    f"call #{k} {name}(timeout={to}) in model state {st_before} closed={closed_before} ({ctx}): expected {sorted(exp)}, observed {got} {ev.get('msg', '')!r}; "
                    f"calls={[c[0] for c in spec['calls']]} plan={spec['plan']}", rp, observed=got, expected=sorted(exp))
         elif got == "ok" and cls == "legal" and not degraded_before and ev.get("ret", "good") not in ("good", "none"):
